@@ -4,6 +4,9 @@ wt=$1; md=$2
 cd "$wt" || exit 2
 git checkout -q -- . 
 git apply "$md/patch.diff" || { echo "REJECTED $md: patch does not apply"; exit 1; }
+# (the Numba on-disk cache lives next to the sources; an earlier partial run can leave kernels there that make
+#  mode tests fail on a clean tree - KF-C08-optional-order - so start every suite run from an empty cache)
+rm -f dataiter/__pycache__/*.nbi dataiter/__pycache__/*.nbc
 out=$(/venv/bin/python -m pytest -q -p no:cacheprovider --timeout=900 dataiter 2>&1 | tail -12)
 nfail=$(echo "$out" | grep -c '^FAILED')
 other=$(echo "$out" | grep '^FAILED' | grep -v -e test_read_json_columns -e test_read_json_dtypes -e test_read_json_path -e 'test_list_of_dicts' | wc -l)
